@@ -26,7 +26,8 @@ from ..ebb3 import (Engine, EBB3Hooks, most_derived, public_methods, ALL_TS, OK,
                     initial_state, summarise_outcome)
 from ..interp import (Interp, Outcome, Opaque, Str, Slot, Tup, Const, Cmp, IsNone, Truthy, In, NotC, AndC,
                       OrC, Pred, State, ObjRef, NONE, TRUE, FALSE, fold_cond, type_of)
-from ..loops import analyse_retry_loop, while_loops, contains_call_attr
+from ..loops import (analyse_retry_loop, while_loops, contains_call_attr, UnrollMixin,
+                     Unbounded)
 from ..poly import Sym
 from ..model import AnalysisError, Program
 from ..report import Check, VERIF
@@ -182,12 +183,7 @@ REQUEST_KINDS = [
 ]
 
 
-class Unbounded(Exception):
-    """A loop is still running after 3000 iterations under an abstract case that decides its test
-    on every iteration: the wait is not bounded as the property requires."""
-
-
-class CaseHooks(EBB3Hooks):
+class CaseHooks(UnrollMixin, EBB3Hooks):
     """Decides the branch conditions of a primitive from (request kind, reply class)."""
 
     def __init__(self, engine, fn, kind, length, reply):
@@ -204,32 +200,7 @@ class CaseHooks(EBB3Hooks):
         self.bytes_used = None    # a reply used as text while still bytes
 
     def loop(self, interp, node, st):
-        if not (self.unroll and isinstance(node, ast.While)):
-            return None
-        return self._unroll(interp, node, st, 0)
-
-    def _unroll(self, interp, node, st, depth):
-        if depth > 3000:
-            raise Unbounded(node.lineno)
-        for c, s in interp.ev_cond(node.test, st):
-            if s.raised:
-                yield Outcome('raise', s.raised, s)
-                continue
-            t = interp.decide(c, s)
-            if t is None:
-                self.uncountable = True
-                yield from interp.loop_havoc(node, s, test=node.test)
-                continue
-            if not t:
-                yield Outcome('fall', None, s)
-                continue
-            for out in interp.exec_block(node.body, s):
-                if out.kind in ('fall', 'continue'):
-                    yield from self._unroll(interp, node, out.state, depth + 1)
-                elif out.kind == 'break':
-                    yield Outcome('fall', None, out.state)
-                else:
-                    yield out
+        return self.unroll_loop(interp, node, st)
 
     def text_use(self, v, what):
         if type_of(v) == 'bytes' and self.bytes_used is None:
